@@ -118,13 +118,13 @@ Proof. exact consume_never_fails. Qed.
 Print Assumptions C36_consume_never_fails.
 
 (* Exact behaviour of chunks after any history (finding classes included): Ok ch is a chunking of
-   shape (one entry per dimension, sizes add up, none negative); ValueError exactly when chunk_shape
+   shape (one entry per dimension, sizes add up, each dimension either the single empty chunk (0,) or positive sizes); ValueError exactly when chunk_shape
    is longer than shape; IndexError exactly in class C36-a. *)
 Theorem C36_chunks_exact : forall p c ds c',
   params_nonneg p -> construct p = Ok c -> wf_weak ds -> consume_all c ds = Ok c' ->
   match chunks c' with
   | Ok ch => length ch = length (shape c') /\ map zsum ch = shape c' /\
-             Forall (Forall (fun s => 0 <= s)) ch /\
+             Forall proper_dim ch /\
              (length (c_chunk c') <= length (shape c'))%nat /\ finding_C36_a c' = false
   | Err e => (e = ValueError /\ (length (shape c') < length (c_chunk c'))%nat) \/
              (e = IndexError /\ finding_C36_a c' = true /\
@@ -139,7 +139,7 @@ Theorem C36_chunks_valid : forall p c ds c',
   params_nonneg p -> construct p = Ok c -> wf_weak ds -> consume_all c ds = Ok c' ->
   finding_C36_a c' = false -> finding_C36_b c' = false ->
   (exists ch, chunks c' = Ok ch /\ length ch = length (shape c') /\ map zsum ch = shape c' /\
-              Forall (Forall (fun s => 0 <= s)) ch) \/
+              Forall proper_dim ch) \/
   (chunks c' = Err ValueError /\ p_chunk p = Some (c_chunk c') /\
    (length (shape c') < length (c_chunk c'))%nat).
 Proof. exact chunks_valid. Qed.
